@@ -443,6 +443,17 @@ func c08OpTable(c *core.Ctx) {
 		if oc.Op.K == "Scale" || oc.Op.K == "Pow" {
 			key = fmt.Sprintf("%s/%g", oc.Op.K, oc.Op.F) // a constant exponent / factor may get its own shortcut
 		}
+		if oc.Op.K == "Patch" && len(oc.In) == 2 {
+			key = fmt.Sprintf("Patch/full%v", ref.SameShape(oc.In[0], oc.In[1])) // a source that replaces the whole target may get its own shortcut
+		}
+		if oc.Op.K == "Slice" && len(oc.In) == 1 {
+			sh, _ := ref.ResultShape(oc.Op, oc.In)
+			key = fmt.Sprintf("Slice/whole%v", ref.SameShape(sh, oc.In[0]))
+		}
+		if oc.Op.K == "Reshape" || oc.Op.K == "Flatten" || oc.Op.K == "Broadcast" {
+			sh, _ := ref.ResultShape(oc.Op, oc.In)
+			key = fmt.Sprintf("%s/same%v", oc.Op.K, ref.SameShape(sh, oc.In[0])) // a shape operation that changes nothing
+		}
 		if seen[key] {
 			return
 		}
